@@ -21,7 +21,8 @@ PID = 'C10'
 DRIVERS = ['tc']
 MODULE = 'PymtlVerif.Props.C10'
 THEOREMS = ['PV.C10.' + t for t in [
-  'literal_min_width', 'literal_min_width_neg', 'width_sound', 'subexpr_accepted', 'explicit_final_width',
+  'literal_min_width', 'literal_min_width_int', 'literal_min_width_neg', 'width_sound', 'subexpr_accepted',
+  'width_sound_subexpr', 'explicit_final_width',
   'no_width_error', 'stmt_no_width_error', 'block_no_width_error', 'explicit_mismatch_rejected',
   'assign_mismatch_rejected', 'mismatch_raises', 'check_implies_WT', 'check_implies_WT_stmt',
   'F4_counterexample', 'F12_counterexample', 'F12_negative_counterexample', 'N1_counterexample',
@@ -579,7 +580,7 @@ def run(ck):
     batch(per // 2, lambda u: G.gen_wild(rng, u))
     for which in ('F4', 'F12', 'N1', 'N2', 'N3', 'N4'):
       batch(6 if quick else 20, lambda u: G.gen_finding(rng, u, which))
-    if len(ck.violations) > 400 or len(ck.breaks) > 50: break
+    if len(ck.breaks) > 50 or sum(1 for v in ck.violations if v.signature.get('finding') in ('unexplained', 'literal-width')) > 20: break
 
 def replay(ck, data):
   case = data['case']
